@@ -1,25 +1,35 @@
 """BOUNDED stand-in for C20: compiled (numba JIT as installed) and interpreted (NUMBA_DISABLE_JIT=1) execution give the same results.
 
-The driver (this file, no library import) builds a seeded corpus of calls with pure numpy, pickles it and runs it twice per group in fresh
-interpreter processes (this same file with C20_WORKER=1): once with the JIT as installed, once with NUMBA_DISABLE_JIT=1 set in the
-environment BEFORE python starts (the worker reports numba.config.DISABLE_JIT so that the mode is verified, not assumed).  Workers write
-one JSON line before and one after every call; a supervisor thread per worker enforces a per-call watchdog, records a hang / a died
-process for the call in flight and restarts the worker behind it.  Results are then compared call by call:
+The driver (this file; it never imports the library) builds a seeded corpus of calls with pure numpy, pickles it and runs it in fresh
+interpreter processes (this same file with C20_WORKER=1): with the JIT as installed, and with NUMBA_DISABLE_JIT=1 set in the environment
+BEFORE python starts (the worker reports numba.config.DISABLE_JIT, so the mode is verified, not assumed).  Workers write one JSON line
+before and one after every call; a supervisor thread per worker enforces a per-call watchdog, records a hang / a died process for the call
+in flight and restarts the worker behind it.  JIT pass 1 runs the generic / tie / mid calls under a long watchdog (a cold numba cache has
+to compile: about 150 s for the whole library), JIT pass 2 then runs the container calls (EMPTY tree ...: the ones that can hang when
+compiled code reads outside its arrays) under a short watchdog, the EMPTY-tree calls spread over separate processes.
 
+Obligations (contract names jit_vs_interp.<module>.<function>):
   same_result          floats of closed-form functions: |a-b| <= 1e-9*max(L,|a|,|b|); iterative solvers: distances within acc*L
                        (acc = 1e-5 for the Jolt GJK (C01), 1e-3 for the other GJK flavours / EPA, 2e-3 MPR, 1e-6 iterative primitives),
                        witness points of separated generic pairs within 1e-3*L; booleans, integers, index sets, array shapes identical
+                       (an integer array and a float array with the same values, e.g. empty index arrays, count as the same set: recorded)
   same_exception_type  both modes raise the same exception type or neither raises
   terminates           no mode hangs (watchdog) or dies (signal) on a call
-  imports_under_jit    every module of distance3d (except visualization / plotting) imports in a fresh interpreter with the JIT as installed
-                       (hydroelastic_contact.* with the open3d stub of _common, because open3d cannot load in this sandbox)
+  imports_under_jit    every module of distance3d (except visualization / plotting) imports with the JIT as installed (thorough: one
+                       fresh interpreter per module; quick: 3 fresh interpreters, all distance3d modules purged from sys.modules between two
+                       imports, anything not ok is re-checked in its own fresh interpreter; hydroelastic_contact.* with the open3d stub of
+                       _common because open3d cannot load in this sandbox)
 
 L = max(1, largest |coordinate| / size in the call).  Inputs carry a tag: 'generic' (random, away from every decision boundary with
-probability 1), 'container' (empty / single-element / duplicate containers: explicitly part of the property) -> every mismatch is a failure;
-'tie' (exactly degenerate lattice placements: parallel, touching, coincident) and 'mid' (unknown overlap state) -> numeric mismatches of
-distances are failures, mismatching booleans / index sets / shapes / exception types are counted as `undecided` (the property exempts
-decision boundaries), hangs are failures everywhere.
-Contract names: jit_vs_interp.<module>.<function>.
+probability 1) and 'container' (empty / single-element / duplicate containers: explicitly part of the property) -> every mismatch is a
+failure; 'tie' (exactly degenerate lattice placements: parallel, touching, coincident; structurally coincident half-planes) and 'mid'
+(unknown overlap state) -> numeric mismatches of distances are failures, mismatching booleans / index sets / shapes / exception types are
+counted as `undecided` (the property exempts decision boundaries).  Hangs and dead processes are failures everywhere.
+
+No false alarm from uninitialised memory: every mismatch is re-run twice in both modes with python-level np.empty()/np.empty_like()
+returning pattern-filled arrays (legal: their contents are unspecified) and MALLOC_PERTURB_ set; only a mismatch that shows in every
+repetition is reported, otherwise it is `undecided` (example: gjk_distance_jolt hands EPA a simplex with never-written rows of np.empty,
+so EPA's answer changes with the garbage in BOTH modes).
 """
 import time
 t0 = time.time()
@@ -828,7 +838,8 @@ def build_corpus(rng, thorough):
     add(T_ + "overlaps_aabb_tree", "aabb_empty3", "aabb", "container", op="overlaps_aabb_tree", batches=[some], batches2=[], L=6.0)
     add(T_ + "overlaps_aabb_tree", "aabb_empty4", "aabb", "container", op="overlaps_aabb_tree", batches=[], batches2=[], L=6.0)
     add(T_ + "get_root_aabb", "aabb_empty5", "aabb", "container", op="get_root_aabb", batches=[], L=6.0)
-    add("aabb_tree.query_overlap", "aabb_empty6", "aabb", "container", op="query_first_leaf", batches=[], queries=rand_boxes(rng, 1), L=6.0)
+    # (the raw kernel aabb_tree.query_overlap is NOT called with root = INDEX_NONE: a valid root index is its precondition, the
+    # AabbTree methods are the public entry points for an empty tree)
 
     # ---- hydroelastic contact: half-planes, tetrahedron pairs, forces, rigid bodies
     HPt = "distance3d.hydroelastic_contact._halfplanes:"
@@ -867,8 +878,14 @@ def build_corpus(rng, thorough):
         else:
             e1, e2 = rng.uniform(0.1, 1.0, size=4), rng.uniform(0.1, 1.0, size=4)
             ttag = "generic"
-        add("hydroelastic_contact.intersect_tetrahedron_pair", "hydro", "hydro", ttag if not np.array_equal(t1, t2) else "container",
-            op="tetra_pair", t1=t1, t2=t2, e1=e1, e2=e2, L=4.0)
+        if np.array_equal(t1, t2):
+            # identical tetrahedra: with identical potentials the library's `same` branch applies (container case); with different
+            # potentials all eight half-plane boundaries coincide pairwise (tie)
+            if it % 16 == 3:
+                e2, ttag = e1.copy(), "container"
+            else:
+                ttag = "tie"
+        add("hydroelastic_contact.intersect_tetrahedron_pair", "hydro", "hydro", ttag, op="tetra_pair", t1=t1, t2=t2, e1=e1, e2=e2, L=4.0)
         add("hydroelastic_contact._transform_wrenches", "hydro", "hydro", "generic", op="transform_wrenches",
             args=[g_pose(rng, 1.0, False), rng.normal(size=3), rng.normal(size=3), rng.normal(size=3)], L=10.0)
     rb_kinds = ["cube", "box", "sphere", "ellipsoid", "cylinder", "capsule"]
@@ -948,8 +965,8 @@ def main():
         # pass 1 has filled numba's on-disk cache: the container calls (EMPTY tree ...: the ones expected to be able to hang) under a
         # short watchdog, the EMPTY-tree calls spread over separate processes so that hangs time out in parallel.
         N_I = 8
-        fam = {"utils": "jA", "geometry": "jA", "containment": "jA", "distance0": "jA", "distance1": "jA", "distance_tie": "jA",
-               "colliders": "jB", "aabb": "jD", "hydro": "jD"}
+        fam = {"utils": "jA", "geometry": "jA", "containment": "jA", "distance0": "jE", "distance1": "jE", "distance_tie": "jE",
+               "colliders": "jB", "aabb": "jD", "hydro": "jF"}
         n_risky = 0
         for c in corpus:
             c["igroup"] = "i%d" % (c["id"] % N_I)
@@ -961,9 +978,9 @@ def main():
                 else:
                     c["jgroup"] = "jc"
             elif g.startswith("pair_"):
-                c["jgroup"] = "jB" if ("jolt" in g or "original" in g or "libccd" in g) else "jC"
+                c["jgroup"] = "jB" if ("jolt" in g or "original" in g or "libccd" in g) else ("jC" if "nesterov" in g else "jG")
             elif g.startswith("hydro_rb"):
-                c["jgroup"] = "jD"
+                c["jgroup"] = "jF"
             else:
                 c["jgroup"] = fam[g]
         with open(corpus_path, "wb") as f:
